@@ -31,7 +31,7 @@ ASSUMPTIONS = [
     "one protocol version per session (the documentation requires the client to use a supported version consistently)",
     "values of the wrong JSON type belong to C15",
 ]
-BUDGET = {"quick": {"examples": 3200}, "thorough": {"examples": 100000, "deadline_s": 1500}}
+BUDGET = {"quick": {"examples": 3200}, "thorough": {"examples": 100000, "deadline_s": 900}}
 
 CFG = gen.cfg(max_syms=12, p_range=60, p_range_cond=50, p_menu=20, p_choice=12, p_wset=28, p_set=18, p_prompt=72, p_bare=10)
 
